@@ -74,23 +74,31 @@ NewItemAt(bs, d, b) ==
     IF d = 1 THEN [bs EXCEPT ![Len(bs)] = [Last(bs) EXCEPT !.items = Append(@, <<b>>)]]
     ELSE [bs EXCEPT ![Len(bs)] = WithInner(Last(bs), NewItemAt(Inner(Last(bs)), d - 1, b))]
 
+\* start a new, empty item in the list that is the d-th open container ("EI" among the leaf kinds)
+RECURSIVE NewEmptyItemAt(_, _)
+NewEmptyItemAt(bs, d) ==
+    IF d = 1 THEN [bs EXCEPT ![Len(bs)] = [Last(bs) EXCEPT !.items = Append(@, <<>>)]]
+    ELSE [bs EXCEPT ![Len(bs)] = WithInner(Last(bs), NewEmptyItemAt(Inner(Last(bs)), d - 1))]
+
 Init == doc = <<>> /\ n = 0
 
 AddLeaf(d, kind) ==
-    /\ n < MaxNodes
+    /\ n < MaxNodes /\ kind # "EI"
     /\ doc' = AddAt(doc, d, Leaf(kind, n + 1))
     /\ n' = n + 1
 
 OpenCont(d, ckind, kind) ==
     /\ n + 2 <= MaxNodes
     /\ d + 1 <= MaxDepth
-    /\ doc' = AddAt(doc, d, Cont(ckind, Leaf(kind, n + 2)))
+    /\ doc' = IF kind = "EI" /\ ckind # "Q" THEN AddAt(doc, d, B(ckind, 0, <<>>, <<>>, << <<>> >>, <<>>, ""))
+              ELSE AddAt(doc, d, Cont(ckind, Leaf(kind, n + 2)))
+    /\ (kind = "EI" => ckind # "Q")
     /\ n' = n + 2
 
 NewItem(d, kind) ==
     /\ n < MaxNodes
     /\ SpineKind(doc, d) \in {"BL", "OL"}
-    /\ doc' = NewItemAt(doc, d, Leaf(kind, n + 1))
+    /\ doc' = IF kind = "EI" THEN NewEmptyItemAt(doc, d) ELSE NewItemAt(doc, d, Leaf(kind, n + 1))
     /\ n' = n + 1
 
 Next == \/ \E d \in 0..SpineDepth(doc), kind \in LeafKinds : AddLeaf(d, kind)
